@@ -56,6 +56,14 @@ pub enum Op {
     /// a free-running injector thread: pushes / extends n items with short pauses, concurrently with
     /// the following operations (joined at the end)
     BgInjector { inj: u8, n: u8, pause: u8, text: u16 },
+    /// the same column text is parsed again with other CaseMatching / Normalization settings
+    /// (append = false), which then stay in force for that column
+    ReparseMode { col: u8, case: u8, norm: u8 },
+    /// Nucleo::update_config with the configuration the history runs with (blocks until a run in
+    /// progress has finished, so nothing is held meanwhile)
+    UpdateConfig,
+    /// handles[dst].clone_from(&handles[src])
+    CloneFromInjector { dst: u8, src: u8 },
 }
 
 #[derive(Clone, Debug, Serialize, Deserialize, Hash)]
@@ -214,6 +222,8 @@ pub struct Machine<'h> {
     /// reserved index count per stream (upper bound for scans)
     reserved: HashMap<u32, u32>,
     texts: Vec<String>,
+    /// (CaseMatching, Normalization) selector currently in force per column
+    modes: Vec<(u8, u8)>,
     rep: RunReport,
     /// stream the snapshot belonged to at the last observation / before the last restart(false)
     pending_restart_obs: Option<Obs>,
@@ -261,6 +271,7 @@ impl<'h> Machine<'h> {
             items: Arc::new(Mutex::new(HashMap::new())),
             reserved: HashMap::new(),
             texts: vec![String::new(); h.columns.max(1) as usize],
+            modes: (0..h.columns.max(1) as usize).map(|c| h.modes.get(c).copied().unwrap_or((2, 1))).collect(),
             rep: RunReport::default(),
             pending_restart_obs: None,
             snap_stream_switched: true,
@@ -608,7 +619,7 @@ impl<'h> Machine<'h> {
         };
         // the append flag is set exactly when the previous text is a prefix of the new text
         let append = new.starts_with(&old);
-        let (cm, nm) = self.h.modes.get(col).copied().unwrap_or((2, 1));
+        let (cm, nm) = self.modes[col];
         self.nuc.as_mut().unwrap().pattern.reparse(col, &new, case_of(cm), norm_of(nm), append);
         if append && !old.is_empty() && new != old {
             self.had_append = true;
@@ -692,6 +703,14 @@ impl<'h> Machine<'h> {
                     let col = *col as usize % self.cols();
                     self.apply_edit(col, edit);
                 }
+                Op::ReparseMode { col, case, norm } => {
+                    let col = *col as usize % self.cols();
+                    self.modes[col] = (*case % 3, *norm % 2);
+                    let text = self.texts[col].clone();
+                    self.nuc.as_mut().unwrap().pattern.reparse(col, &text, case_of(*case % 3), norm_of(*norm % 2), false);
+                    self.had_cancel = true;
+                    self.rep.label("reparse-with-other-settings");
+                }
                 Op::Tick { timeout } => {
                     // adversarial order of in-flight pushes when >= 2 writers are held
                     let held_count = self.writers.iter().filter(|w| w.held).count();
@@ -760,6 +779,31 @@ impl<'h> Machine<'h> {
                             self.handles.push(c);
                         }
                     }
+                    self.check_injectors(&when);
+                }
+                Op::CloneFromInjector { dst, src } => {
+                    if let (Some(d), Some(sr)) = (self.pick_handle(*dst, false), self.pick_handle(*src, false)) {
+                        if d != sr {
+                            let (a, b) = if d < sr {
+                                let (x, y) = self.handles.split_at_mut(sr);
+                                (&mut x[d], &y[0])
+                            } else {
+                                let (x, y) = self.handles.split_at_mut(d);
+                                (&mut y[0], &x[sr])
+                            };
+                            a.inj.clone_from(&b.inj);
+                            a.stream = b.stream;
+                            self.rep.label("injector-clone-from");
+                        }
+                    }
+                    self.check_injectors(&when);
+                }
+                Op::UpdateConfig => {
+                    gate::begin_blocking();
+                    let cfg = self.cfg.clone();
+                    self.nuc.as_mut().unwrap().update_config(cfg);
+                    gate::end_blocking();
+                    self.rep.label("update-config");
                     self.check_injectors(&when);
                 }
                 Op::DropInjector { sel, on_thread } => {
@@ -952,7 +996,7 @@ impl<'h> Machine<'h> {
         // from scratch
         let mut fresh = MultiPattern::new(self.cols());
         for c in 0..self.cols() {
-            let (cm, nm) = self.h.modes.get(c).copied().unwrap_or((2, 1));
+            let (cm, nm) = self.modes[c];
             fresh.reparse(c, &self.texts[c], case_of(cm), norm_of(nm), false);
         }
         let mut matcher = Matcher::new(self.cfg.clone());
@@ -1032,11 +1076,14 @@ pub fn op_strategy(bias: Bias) -> BoxedStrategy<Op> {
         5 => (any::<u8>(), 2u8..40, any::<u16>(), 0u8..50).prop_map(|(inj, n, text, hold_at)| Op::Extend { inj, n, text, hold_at }),
         8 => any::<u8>().prop_map(|sel| Op::ReleaseWriter { sel }),
         14 => (0u8..3, edit).prop_map(|(col, edit)| Op::Reparse { col, edit }),
+        3 => (0u8..3, 0u8..3, 0u8..2).prop_map(|(col, case, norm)| Op::ReparseMode { col, case, norm }),
         22 => (0u8..3).prop_map(|timeout| Op::Tick { timeout }),
         w_restart => any::<bool>().prop_map(|clear| Op::Restart { clear }),
         w_inj / 3 + 1 => Just(Op::NewInjector),
         w_inj / 3 + 1 => any::<u8>().prop_map(|sel| Op::CloneInjector { sel }),
         w_inj / 3 + 1 => (any::<u8>(), any::<bool>()).prop_map(|(sel, on_thread)| Op::DropInjector { sel, on_thread }),
+        w_inj / 6 + 1 => (any::<u8>(), any::<u8>()).prop_map(|(dst, src)| Op::CloneFromInjector { dst, src }),
+        3 => Just(Op::UpdateConfig),
         8 => (0u8..7).prop_map(|phase| Op::HoldRunAt { phase }),
         4 => (0u8..7).prop_map(|phase| Op::AdvanceRunTo { phase }),
         5 => Just(Op::ReleaseRun),
@@ -1094,6 +1141,12 @@ pub fn templates() -> Vec<History> {
     v.push(base(3, vec![push_n(2015, 3), Op::Extend { inj: 0, n: 30, text: 5, hold_at: 2 }, Op::Reparse { col: 0, edit: Edit::Replace(0) }, Op::Tick { timeout: 2 }, Op::ReleaseWriter { sel: 0 }, Op::Tick { timeout: 2 }]));
     // injector bookkeeping across restarts and timed-out ticks
     v.push(base(1, vec![Op::NewInjector, Op::CloneInjector { sel: 1 }, Op::DropInjector { sel: 0, on_thread: true }, Op::HoldRunAt { phase: 0 }, Op::Push { inj: 0, text: 1 }, Op::Tick { timeout: 0 }, Op::Restart { clear: false }, Op::Tick { timeout: 0 }, Op::NewInjector, Op::DropInjector { sel: 0, on_thread: false }, Op::ReleaseRun, Op::Tick { timeout: 2 }, Op::Restart { clear: true }, Op::NewInjector, Op::Tick { timeout: 2 }]));
+    // update_config while a run is held in each phase, then the matcher is ticked to quiescence
+    for phase in [2u8, 3, 5] {
+        v.push(base(2, vec![push_n(50, 3), Op::Reparse { col: 0, edit: Edit::Replace(0) }, Op::HoldRunAt { phase }, Op::Tick { timeout: 0 }, Op::UpdateConfig, Op::Tick { timeout: 2 }, Op::ReleaseRun, Op::Tick { timeout: 2 }]));
+    }
+    // restart, then update_config before the next tick; clone_from across streams
+    v.push(base(1, vec![push_n(5, 1), Op::NewInjector, Op::Tick { timeout: 2 }, Op::Restart { clear: false }, Op::UpdateConfig, Op::NewInjector, Op::CloneFromInjector { dst: 0, src: 255 }, Op::Tick { timeout: 2 }, Op::Restart { clear: true }, Op::UpdateConfig, Op::Tick { timeout: 2 }]));
     // multi column
     let mut mc = base(2, vec![push_n(40, 2), Op::Reparse { col: 0, edit: Edit::Replace(0) }, Op::Reparse { col: 1, edit: Edit::Replace(1) }, Op::Tick { timeout: 2 }, Op::Reparse { col: 1, edit: Edit::Append(0) }, Op::Tick { timeout: 2 }]);
     mc.columns = 3;
